@@ -201,6 +201,8 @@ def run(ctx):
     # concurrent senders: header and payload of one message must not be separated by another thread's/task's message
     from units import conc
     conc.conc_sessions(ctx, int((20 if ctx.tier == "quick" else 300) * ctx.budget))
+    # two AdbDevice objects sending at once over short-writing transports: state shared between objects is not covered by per-device locks
+    conc.conc_two_devices(ctx, int((20 if ctx.tier == "quick" else 300) * ctx.budget))
 
 
 def search(ctx, disagreements, proofs):
@@ -261,6 +263,9 @@ def replay(ctx, payload):
         if case.get("kind") == "conc-sessions":
             from units import conc
             return conc.replay_conc_sessions(ctx, fl)
+        if case.get("kind") == "conc-two-devices":
+            from units import conc
+            return conc.replay_conc_two_devices(ctx, fl)
         return sesscheck.replay(ctx, payload, (oracles.o_c02,))
     if case and case[0] == "huge":
         before = len(ctx.report.prop_failures)
